@@ -2,11 +2,11 @@ package main
 
 import (
 	"fmt"
-	"os"
-	"time"
 	"go/ast"
 	"go/types"
+	"os"
 	"strings"
+	"time"
 )
 
 // Engine caches per-function flows and interprocedural summaries.
@@ -413,7 +413,7 @@ var externalWrites = map[string]map[int]bool{
 	"encoding/binary.littleEndian.PutUint16": {0: true}, "encoding/binary.littleEndian.PutUint32": {0: true}, "encoding/binary.littleEndian.PutUint64": {0: true},
 	"golang.org/x/text/collate.Collator.Key": {0: true}, "golang.org/x/text/collate.Collator.KeyFromString": {0: true},
 	"golang.org/x/text/collate.Buffer.Reset": {-1: true},
-	"builtin.copy": {0: true}, "builtin.clear": {0: true}, "builtin.append": {0: true},
+	"builtin.copy":                           {0: true}, "builtin.clear": {0: true}, "builtin.append": {0: true},
 }
 
 // writesThrough: parameters (index; -1 receiver) of a library function through which it may
